@@ -56,7 +56,7 @@ Tol(chk) ==
     [] OTHER            -> 0
 \* Euler round trip: pitch = asin(t2) loses 1/cos(pitch) = (2 (1 - |sin pitch|))^(-1/2) digits:
 \* g = decade of 1 - |sin pitch| (0: >= 0.1, 1: >= 1e-2, 2: >= 1e-3, 3: >= 4e-4 = twice the default gimbal eps,
-\* 4: >= 2e-5 = twice a caller-chosen eps of 1e-5, loss factor up to 160)
+\* 4: between 1.25 and 2 times the gimbal eps in use (default 2e-4, or a caller-chosen 1e-5: loss factor up to 200))
 ErtTol(g) == CASE g = 0 -> 32 [] g = 1 -> 64 [] g = 2 -> 128 [] g = 3 -> 256 [] g = 4 -> 1024 [] OTHER -> 0
 
 \* ------------------------------------------------------------------ decoding
